@@ -293,7 +293,11 @@ func (t *collationSortedTree[K, V]) Prefix(p K) iter.Seq2[K, V] {
 
 func (t *collationSortedTree[K, V]) Range(start, end K) iter.Seq2[K, V] {
 	if len(end) == 0 {
-		end, _ = t.restoreKey(maximum[V](t.root))
+		last := maximum[V](t.root)
+		if last == nil {
+			return func(yield func(K, V) bool) {}
+		}
+		end, _ = t.restoreKey(last)
 	}
 
 	if strings.Compare(string(start), string(end)) > 0 { // start > end
